@@ -99,3 +99,7 @@ pub mod bbsplus;
 #[cfg(feature = "cl03")]
 #[doc(hidden)]
 pub mod cl03;
+
+#[cfg(feature = "zkryptium_verif")]
+#[doc(hidden)]
+pub mod verif_hooks;
